@@ -202,7 +202,7 @@ def check_uncert_text(fmt, text, x, xe, p, suffix, with_layout=True):
     try:
         sig, e, rest = read_sci(fmt, text)
         if sig is None:
-            return 'no significand in %r' % text
+            return '%r: a value given with an uncertainty is printed without significand and uncertainty' % text
         nom, dec, unc = sig_value(sig)
     except Unreadable as ex:
         return 'cannot read %r back (%s)' % (text, ex)
@@ -333,6 +333,25 @@ class C20(Property):
             for p in (1, 3, 4, 5, 6):
                 cases.append({'op': 'fmt_g', 'p': p, 'xf': float(x).hex()})
                 cases.append({'op': 'number_to_x', 'fmt': FMTS[(p + int(abs(x))) % 3], 'p': p, 'xf': float(x).hex(), 'unit': None})
+        # uncertainties whose leading digits round up to a power of ten (9.6 -> 10, 9.96 -> 10.0, 99.95 -> 100.0 ...)
+        for lead, p in ((9.6, 1), (9.96, 2), (9.996, 3), (9.51, 1), (9.951, 2), (99.6, 2), (9.9996, 4), (9.7, 1)):
+            for k in (-7, -3, 0, 2, 6, 11):
+                x = float('%r' % (rng.choice([1.2345678, 3.14159, 9.87654, 5.5, 1.0, 2.5]) * 10.0 ** (k + rng.randint(2, 5))))
+                xe = float('%re%d' % (lead, k))
+                if uncert_modelled(x, xe, p):
+                    cases.append({'op': 'float_str_w_uncert', 'xf': x.hex(), 'xef': xe.hex(), 'p': p})
+                    cases.append({'op': 'number_to_x_uncert', 'fmt': rng.choice(FMTS), 'p': p, 'xf': (-x if rng.random() < 0.3 else x).hex(),
+                                  'xef': xe.hex(), 'unit': rng.choice([None, rng.choice(UNITS)])})
+        # nominal values that are exact powers of ten (or round to one) printed WITH an uncertainty, every renderer, with/without unit
+        for k in (0, 1, 3, 5, 6, 9, 12, 15, 18, 22):
+            for j, lead, p in ((2, 3.0, 1), (3, 2.9, 2), (4, 1.5, 2), (5, 4.2, 1), (3, 9.6, 1)):
+                x, xe = float('1e%d' % k), float('%re%d' % (lead, k - j))
+                for xx in (x, -x, float('%r' % (x * (1 + 10.0 ** -(j + 3))))):
+                    if uncert_modelled(xx, xe, p):
+                        cases.append({'op': 'float_str_w_uncert', 'xf': xx.hex(), 'xef': xe.hex(), 'p': p})
+                        for fmt in FMTS:
+                            cases.append({'op': 'number_to_x_uncert', 'fmt': fmt, 'p': p, 'xf': xx.hex(), 'xef': xe.hex(),
+                                          'unit': rng.choice([None, rng.choice(UNITS)])})
         while len(cases) < n:
             r = rng.random()
             if r < 0.22:
@@ -507,8 +526,14 @@ class C20(Property):
                 return '_%s_pow_10(%r, %r): %s' % (c['fmt'], c['significand'], c['mantissa'], exc_name(ex))
             if e != want_e or rest != '':
                 return '%r does not show the exponent %d' % (text, want_e)
-            if re.fullmatch(SIG, c['significand']) and (sig or '1') != c['significand'] and not (sig is None and F(c['significand']) == 1):
+            nom, _dec, unc = sig_value(c['significand'])
+            if sig is None:
+                if unc is not None or nom != 1:
+                    return 'significand %r omitted in %r although it is not exactly 1' % (c['significand'], text)
+            elif sig != c['significand']:
                 return '%r does not show the significand %r' % (text, c['significand'])
+            elif c['significand'] == '1':
+                return 'significand exactly 1 is printed in %r' % text
             return None
         if op in ('number_to_x', 'number_to_x_uncert'):
             from chempy.units import to_unitless
